@@ -185,7 +185,7 @@ VhdxLayouts ==
 \cup {[X0 EXCEPT !.rpad = rp, !.rcount = rc] : rp \in {0, 1, 3}, rc \in {0, 1, 2, 4, 2047, 2048, 65535}}
 \cup {[X0 EXCEPT !.mpad = mp, !.mcount = mc] : mp \in {0, 1, 3}, mc \in {0, 1, 2, 4, 2047, 2048, 65535}}
 \cup {[X0 EXCEPT !.meta_off = mo, !.item_off = io, !.mpad = mp] :
-         mo \in {0, 64 * KiB, 128 * KiB, 192 * KiB, 256 * KiB - 32, 256 * KiB, 320 * KiB, 1024 * KiB},
+         mo \in {0, 64 * KiB, 128 * KiB, 192 * KiB, 224 * KiB, 256 * KiB - 32, 256 * KiB, 320 * KiB, 1024 * KiB},
          io \in {0, 32, 63, 64, 96, 128, 4096, 64 * KiB, 64 * KiB + 8, 1024 * KiB}, mp \in {0, 2}}
 \cup {[X0 EXCEPT !.total = t] :
          t \in {0, 7, 8, 31, 32, 192 * KiB + 16, 256 * KiB - 1, 256 * KiB, 320 * KiB, 320 * KiB + 31,
@@ -229,7 +229,8 @@ VhdxClean(L) == /\ L.ident /\ L.regi /\ L.rmeta /\ L.msig /\ L.mvds /\ L.rcount 
 DescCap == 1024 * KiB - 1
 LineClasses == {"comment", "blank", "version", "cid", "parent", "ddb", "ddb2", "extent_rw",
                 "extent_rdonly", "extent_noaccess", "extent_path", "extent_relpath", "junk",
-                "junk_eq_space", "ct_mono", "ct_stream", "ct_upper", "ct_flat", "ct_vmfs",
+                \* junk_rwx: begins with an access keyword without being one ("RWX 2048 ...")
+                "junk_eq_space", "junk_rwx", "ct_mono", "ct_stream", "ct_upper", "ct_flat", "ct_vmfs",
                 "ct_long", "ct_unterminated", "nonascii"}
 CtLines == {"ct_mono", "ct_stream", "ct_upper", "ct_flat", "ct_vmfs", "ct_long", "ct_unterminated"}
 CtOk == {"ct_mono", "ct_stream", "ct_upper"}
@@ -242,11 +243,14 @@ FooterPerts == {"none", "sig", "ver", "desc_sec", "desc_num", "gd_at_end", "m_si
 M0 == [fmt |-> "vmdk", sig |-> TRUE, ver |-> 1, desc_sec |-> "1", desc_num |-> "20",
        sectors |-> "2048", lines |-> StdLines, footer |-> NoFooter, total |-> -1,
        \* what stands where the layout has nothing to say (sector padding, the data area): NUL bytes, or text without
-       \* a single NUL - the descriptor parser looks for the first NUL, so a stream controls how far it looks
+       \* a single NUL - the descriptor parser looks for the first NUL, so a stream controls how far it looks -
+       \* or "exact": the descriptor text fills its sectors to the last byte and ends in the createType line
        fill |-> "nul"]
 Repl(q, i, x) == [q EXCEPT ![i] = x]
 VmdkLayouts ==
-     {[M0 EXCEPT !.sectors = s, !.footer = f] :
+     {[M0 EXCEPT !.fill = "exact", !.desc_num = dn, !.footer = f] :
+         dn \in {"1", "20"}, f \in {NoFooter, [present |-> TRUE, pert |-> "none"]}}
+\cup {[M0 EXCEPT !.sectors = s, !.footer = f] :
          s \in {"0", "1", "2048", "2^32-1", "2^32", "2^55-1"}, f \in {NoFooter, [present |-> TRUE, pert |-> "none"]}}
 \cup {[M0 EXCEPT !.sig = a, !.ver = v, !.desc_sec = ds] :
          a \in BOOLEAN, v \in {0, 1, 2, 3, 4}, ds \in {"0", "1", "2", "2^55"}}
@@ -273,7 +277,7 @@ VmdkDescFails(L) ==
       first == IF cts = {} THEN "none" ELSE q[CHOOSE i \in cts : \A j \in cts : i <= j]
       bad == \/ "nonascii" \in S                       \* descriptor does not decode
              \/ first \notin CtOk                      \* missing / unsupported createType
-             \/ S \cap {"junk", "junk_eq_space"} # {}  \* a line that is not understood
+             \/ S \cap {"junk", "junk_eq_space", "junk_rwx"} # {}  \* a line that is not understood
              \/ S \cap {"extent_path", "extent_relpath"} # {}
              \/ S \cap Extents = {}
              \/ DescNumBytes(L.desc_num) = 0
